@@ -551,7 +551,7 @@ Proof. intros [|[n d] r] acc; reflexivity. Qed.
 Lemma bind_kw_err : forall s kws asg extra x, bind_kw s kws asg extra = Err x -> x = ETypeError.
 Proof.
   intros s; induction kws as [|[k v] r IH]; intros asg extra x H; simpl in H; [discriminate|].
-  destruct (is_param s k).
+  destruct (is_kwparam s k).
   - destruct (kmem k asg); [inversion H; reflexivity|eapply IH; eauto].
   - destruct (has_kw s); [|inversion H; reflexivity].
     destruct (kmem k extra); [inversion H; reflexivity|eapply IH; eauto].
@@ -575,7 +575,7 @@ Lemma bind_kw_keeps_unbound : forall s kws asg extra asg' extra' n,
 Proof.
   intros s; induction kws as [|[k v] r IH]; intros asg extra asg' extra' n H G NI; simpl in *.
   - inversion H; subst; assumption.
-  - destruct (is_param s k).
+  - destruct (is_kwparam s k).
     + destruct (kmem k asg); [discriminate|]. eapply IH; [exact H| |tauto].
       rewrite kget_kset_other; [assumption|]. intros ->; tauto.
     + destruct (has_kw s); [|discriminate]. destruct (kmem k extra); [discriminate|]. eapply IH; [exact H|assumption|tauto].
@@ -714,7 +714,7 @@ Proof.
 Qed.
 
 (* def f(a, b=11): x = f.partial(5); x.rebind(b=11); x(b=7) *)
-Definition witness_sig : sig := {| pos := [(1, None); (2, Some (VInt 11))]; varargs := None; kwonly := []; varkw := None |}.
+Definition witness_sig : sig := {| pos := [(1, None); (2, Some (VInt 11))]; posonly := 0; varargs := None; kwonly := []; varkw := None |}.
 Lemma noop_rebind_refutes : exists q s ctor lates c,
   wf_sig s /\ late_names_ok s lates /\ call_ok s c /\
   functor_bind q s ctor false false lates c None None <> spec_outcome s ctor lates c false false.
@@ -731,7 +731,7 @@ Qed.
 
 (* a non-trivial instance of the hypotheses: def f(a, b=11, *args, k, m=21, **kw) *)
 Definition example_sig : sig :=
-  {| pos := [(1, None); (2, Some (VInt 11))]; varargs := Some 10; kwonly := [(4, None); (5, Some (VInt 21))]; varkw := Some 11 |}.
+  {| pos := [(1, None); (2, Some (VInt 11))]; posonly := 1; varargs := Some 10; kwonly := [(4, None); (5, Some (VInt 21))]; varkw := Some 11 |}.
 Lemma example_sig_wf : wf_sig example_sig.
 Proof.
   constructor.
